@@ -108,7 +108,7 @@ class Recorder(object):
     fetched = adapter.fetch_all(eng)
     for tid, (rows, cols) in fetched.items():
       sc = eng.schema.get(tid)
-      base, ref, isf = {}, {}, {}
+      base, ref, isf, hasf = {}, {}, {}, {}
       for cid in cols:
         c = sc.columns.get(cid) if sc else None
         typ = c.type if c else "Any"
@@ -116,8 +116,9 @@ class Recorder(object):
         # judgement-free split of "Ref:T" / "RefList:T" at the first ':'
         ref[cid] = typ.split(':', 1)[1] if (':' in typ and base[cid] in ('Ref', 'RefList')) else ""
         isf[cid] = bool(c.isFormula) if c else False
+        hasf[cid] = bool(c.formula) if c else False      # formula column, or data column with a default/trigger formula
       st[tid] = {"rows": rows, "cols": {c: [self.tt.tok(v) for v in vals] for c, vals in cols.items()},
-                 "base": base, "ref": ref, "isf": isf}
+                 "base": base, "ref": ref, "isf": isf, "hasf": hasf}
     return st
 
   def project_schema(self, eng=None):
